@@ -144,7 +144,7 @@ CHECKS = {
             "DESIGN.md §3 C14"),
     "C15": ("exhaustive enumeration of version/threshold pairs (E3) plus deviation-bounded "
             "exploration of connect() handshake histories (E1/E2) with stubbed enumerator/port",
-            "512x512 version pairs through both layers' min_version; connect() histories "
+            "729x729 version pairs through both layers' min_version; connect() histories "
             "(connect+requests, connect-connect, connect-disconnect-connect) under every "
             "environment vector with <= 2 (thorough 3) deviations over open failure, 9 banner "
             "kinds per probe, late/silent/error replies and raising I/O incl. close(): True+no-error only "
